@@ -74,6 +74,7 @@ type VC struct {
 	results  []string
 	dry      bool
 	touched  map[string]bool
+	privAllocs map[*ssa.Alloc]bool // cells of the function whose address never leaves it (private.go)
 	topHit   bool
 	ordinals map[string]int
 	assumptions map[string]bool
@@ -180,6 +181,24 @@ func shortFile(f string) string {
 
 // oblige records an obligation; afterwards the condition is assumed.
 func (vc *VC) oblige(st *State, kind, tag string, cond Term, descr string) {
+	if vc.contract != nil && (vc.contract.NoSafety || vc.contract.NoPre) {
+		skip := false
+		switch kind {
+		case "nil", "bounds", "slice", "assert-type", "nilmap", "makeslice", "shift", "callee-panic", "unreachable", "panic-allowed":
+			skip = vc.contract.NoSafety
+		case "pre":
+			skip = vc.contract.NoPre
+		}
+		if skip {
+			if kind == "pre" {
+				vc.assumptions["preconditions of callees are ASSUMED, not proved, in "+vc.key+" (unchecked pre)"] = true
+			} else {
+				vc.assumptions["panic-freedom (nil, bounds, type assertions, explicit panics) is ASSUMED, not proved, in "+vc.key+" (unchecked safety)"] = true
+			}
+			vc.assume(st, cond)
+			return
+		}
+	}
 	name := kind
 	if tag != "" {
 		name += ":" + tag
